@@ -127,6 +127,8 @@ func (setup *SetupServerController) handlePairVerify(in util.Container) (util.Co
 
 	err := setup.session.SetupPrivateKeyFromClientPublicKey(clientPublicKey)
 	if err != nil {
+		// No shared secret without a valid public key `A`: the client has to start again
+		setup.reset()
 		return nil, err
 	}
 
@@ -142,6 +144,7 @@ func (setup *SetupServerController) handlePairVerify(in util.Container) (util.Co
 		log.Debug.Println("Proof M1 is valid")
 		err := setup.session.SetupEncryptionKey([]byte("Pair-Setup-Encrypt-Salt"), []byte("Pair-Setup-Encrypt-Info"))
 		if err != nil {
+			setup.reset()
 			return nil, err
 		}
 
